@@ -192,12 +192,12 @@ def cases(tier, seed):
                 cfg["det"]["order"] = [["z", "y", "x"], ["x", "y", "z"], ["y", "x", "z"], ["y", "z", "x"], ["x", "z", "y"]][int(rng.integers(0, 5))]
         sc = [0.0, 1.0, float(rng.uniform(0.1, 2.0)), float(rng.uniform(0.1, 2.0))][i % 4]
         cost = 6 if kind.startswith(("lens", "tmatrix", "multi")) else 1
-        out.append({"id": "id-%d" % i, "kind": "identity", "cfg": cfg, "ckind": kind, "scaling": sc,
+        out.append({"id": "id-%d" % i, "kind": "identity", "cfg": cfg, "ckind": kind, "scaling": sc, "user_metadata": bool(i % 7 == 3),
                     "optics_in": ["args", "detector", "mixed", "override"][(i // 4) % 4], "cost": cost})
     # multi-channel identity: per-channel scaling / wavelength / polarization given as dicts in arbitrary key order
     nmc = 30 if tier == "quick" else 600
     for i in range(nmc):
-        nch = 2 + i % 2
+        nch = 2 + i % 2 if i % 5 != 4 else 1          # (one labelled channel: what a one-channel colour image gives)
         labs = [["red", "green", "blue"], ["a", "b", "c"], [405, 532, 658]][(i // 2) % 3][:nch]
         out.append({"id": "idmc-%d" % i, "kind": "identity_multi", "labels": labs, "nmed": float(rng.uniform(1.0, 1.5)),
                     "wl": [float(rng.uniform(0.4, 0.8)) for _ in labs], "pol": [[float(rng.normal()), float(rng.normal())] for _ in labs],
@@ -310,6 +310,14 @@ def _run_identity(case):
     pol = cfg["optics"]["illum_polarization"]
     f, h, I, ref, hv, iv, iref = _identity(det, s, th, args, sc, pol)
     resid = {"holo_identity": relmax(hv, ref), "intensity_identity": relmax(iv, iref)}
+    if case.get("user_metadata"):
+        # metadata of the user's own on the detector, with names that are coordinate names elsewhere: carried along, nothing else changes
+        det2 = det.copy()
+        det2.attrs = dict(det.attrs, theta=0.3, phi=1.2, r=7.0, flat="no", point=3)
+        h2_ = calc_holo(det2, s, theory=th, scaling=sc, **args)
+        flags_um = bool(np.array_equal(h2_.values, h.values) and h2_.attrs.get("theta") == 0.3 and h2_.attrs.get("point") == 3)
+    else:
+        flags_um = None
     if cfg["det"]["t"] == "grid":
         # independent per-pixel evaluation: the same positions as a point detector, compared by coordinate label
         from holopy.scattering import calc_field
@@ -334,6 +342,8 @@ def _run_identity(case):
     if case["optics_in"] == "args":
         h2 = calc_holo(det, s, o["medium_index"], o["illum_wavelen"], o["illum_polarization"], th, sc)
         flags["positional_same"] = bool(np.array_equal(h2.values, h.values))
+    if flags_um is not None:
+        flags["user_metadata_named_like_coordinates_is_metadata"] = flags_um
     flags["scaling1_default"] = True
     if sc == 1.0:
         hd = calc_holo(det, s, theory=th, **args)
